@@ -1,6 +1,5 @@
 import asyncio
 import hashlib
-import inspect
 import json
 import logging
 import threading
@@ -281,20 +280,15 @@ class Guard:
             try:
                 inc = getattr(self.metrics, "inc", None)
                 if inc is not None:
-                    if inspect.iscoroutinefunction(inc):
-                        await inc("rbacx_decisions_total", labels)
-                    else:
-                        inc("rbacx_decisions_total", labels)
+                    # the port allows `None | Awaitable[None]`: await whatever awaitable comes back
+                    await maybe_await(inc("rbacx_decisions_total", labels))
             except Exception:  # pragma: no cover
                 logger.exception("RBACX: metrics.inc failed")
             try:
                 observe = getattr(self.metrics, "observe", None)
                 if observe is not None:
                     dur = max(0.0, _now() - start)
-                    if inspect.iscoroutinefunction(observe):
-                        await observe("rbacx_decision_seconds", dur, labels)
-                    else:
-                        observe("rbacx_decision_seconds", dur, labels)
+                    await maybe_await(observe("rbacx_decision_seconds", dur, labels))
             except Exception:  # pragma: no cover
                 logger.exception("RBACX: metrics.observe failed")
 
@@ -312,10 +306,7 @@ class Guard:
                         "reason": d.reason,
                         "obligations": d.obligations,
                     }
-                    if inspect.iscoroutinefunction(log):
-                        await log(payload)
-                    else:
-                        log(payload)
+                    await maybe_await(log(payload))
             except Exception:  # pragma: no cover
                 logger.exception("RBACX: decision logging failed")
 
